@@ -23,7 +23,9 @@ CLAIM = dict(
          "matrix when the R lists differ (finding F5, repaired); phonon_freq_from_square = sign(E) g(|E|) is odd and "
          "monotone and is applied entrywise after diagonalising the corner matrix, so corner frequencies are the frequencies at "
          "the corner k-points; k.p corners: evaluating at fold((p+dK) mod 1 + v) is the direct evaluation fold(p+dK+v) because "
-         "the folding of SystemKP is 1-periodic.  Model tied to the code by exact comparison of the phase "
+         "the folding of SystemKP is 1-periodic, in the reduced and in the Cartesian convention for every reciprocal cell; in "
+         "Cartesian coordinates the corner is K.B + sum_i s_i dK_i b_i = K.B + s.(diag(dK) B) for every lattice, and the transposed "
+         "contraction (diag(dK) B).s differs in a proved oblique example.  Model tied to the code by exact comparison of the phase "
          "arrays and of every recorded corner Hamiltonian on Gaussian-integer data.",
     note="Trusted: Lean kernel + Mathlib; harness; FFT library (inverse-DFT contract); numpy.linalg.eigvalsh (abstract "
          "spectrum routine in the theorems); band selection (Emin/Emax) is checked on the real code only.",
@@ -36,7 +38,9 @@ TRUSTED = [
     "folding and the reduction of the FFT k-points modulo 1 (exact on a one-band quadratic k.p model)",
     "not modelled (oracle only): eigvalsh, select_bands / Emin / Emax, K-point refinement (divide), GridTetra construction",
 ]
-RULE = ("systems: System_R (1-4 WF), phonon-flagged System_R (indefinite 'dynamical matrix'), SystemSOC with one spin channel, "
+RULE = ("k.p models in cubic (kmax), anisotropic orthorhombic, hexagonal and oblique cells given through recip_lattice= / "
+        "real_lattice=, Cartesian and reduced k convention, 1-3 bands; "
+        "systems: System_R (1-4 WF), phonon-flagged System_R (indefinite 'dynamical matrix'), SystemSOC with one spin channel, "
         "two channels with equal and with different R lists, with and without an SOC term, SystemKP; grids NKdiv, NKFFT in "
         "[1,4]^3 non-cubic, FFT boxes smaller than recommended, random and refined K-points, random tetrahedra; all three FFT "
         "libraries; Emin/Emax selections; non-trivial = more than one k-point or more than one R vector; distinct = distinct "
@@ -123,8 +127,50 @@ def make_soc(rng, nw, kind, integer=False, lattice=None):
     return soc
 
 
-def make_kp(rng):
-    """random Hermitian k.p model H(k) = A0 + sum_i k_i A_i + sum_ij k_i k_j B_ij  (k in Cartesian coordinates)"""
+def kp_cell(rng, dyadic=False):
+    """reciprocal / real cell of a k.p model: cubic kmax box, anisotropic orthorhombic, hexagonal, oblique (triclinic);
+    returns (kind, kwargs for SystemKP)"""
+    kind = rng.choice(["kmax", "ortho", "hex", "oblique", "oblique", "real-hex", "real-oblique"])
+    if kind == "kmax":
+        return kind, dict(kmax=rng.choice([0.5, 1.0, 2.0]))
+    if kind == "ortho":
+        B = np.diag([rng.choice([1.0, 1.5, 2.5]), rng.choice([0.75, 2.0, 3.0]), rng.choice([1.0, 1.25, 4.0])])
+    elif kind in ("hex", "real-hex"):
+        a, c = rng.choice([1.0, 2.0, 2.5]), rng.choice([1.0, 1.5, 3.0])
+        h = 0.875 if dyadic else np.sqrt(3) / 2
+        B = np.array([[a, 0, 0], [-a / 2, a * h, 0], [0, 0, c]])
+    else:
+        while True:
+            B = np.eye(3) * rng.choice([1.0, 2.0]) + np.array([[rng.randint(-4, 4) / 8 for _ in range(3)] for _ in range(3)])
+            if np.linalg.det(B) > 0.5 and np.abs(B - B.T).max() > 0.2:
+                break
+    if kind.startswith("real"):
+        return kind, dict(kmax=None, real_lattice=B)
+    return kind, dict(kmax=None, recip_lattice=B)
+
+
+def build_kp(ctx_count, rng, Ham, cart, dyadic=False):
+    """SystemKP in a random cell.  The constructor of SystemKP always runs the finite-difference shell search
+    (find_shells), which fails with a TypeError for many non-cubic cells (no set of shells satisfying B1 within 50 shells);
+    such cells cannot be used at all and are re-drawn (counted)"""
+    from wannierberri.system.system_kp import SystemKP
+    for _ in range(40):
+        cellkind, kw = kp_cell(rng, dyadic=dyadic)
+        try:
+            with quiet():
+                return cellkind, SystemKP(Ham=Ham, k_vector_cartesian=cart, **kw)
+        except TypeError as e:
+            if "NoneType" not in str(e):
+                raise
+            if ctx_count is not None:
+                ctx_count(f"kp.cell_rejected_by_find_shells.{cellkind}")
+    with quiet():
+        return "kmax", SystemKP(Ham=Ham, k_vector_cartesian=cart, kmax=1.0)
+
+
+def make_kp(rng, ctx_count=None):
+    """random Hermitian multi-band k.p model H(k) = A0 + sum_i k_i A_i + sum_ij k_i k_j B_ij in a cubic, orthorhombic,
+    hexagonal or oblique cell (given through kmax=, recip_lattice= or real_lattice=), k Cartesian or reduced"""
     from wannierberri.system.system_kp import SystemKP
     nps = np.random.RandomState(rng.getrandbits(31))
     nw = rng.randint(1, 3)
@@ -136,8 +182,10 @@ def make_kp(rng):
 
     def Ham(k):
         return A0 + sum(k[i] * A1[i] for i in range(3)) + sum(k[i] * k[j] * B[i][j] for i in range(3) for j in range(3))
-    with quiet():
-        s = SystemKP(Ham=Ham, kmax=rng.choice([0.5, 1.0, 2.0]), k_vector_cartesian=rng.random() < 0.7)
+    cart = rng.random() < 0.6
+    cellkind, s = build_kp(ctx_count, rng, Ham, cart)
+    s._verif_desc = dict(cell=cellkind, k_vector_cartesian=cart, recip_lattice=np.array(s.recip_lattice))
+    s._verif_ham = Ham
     return s
 
 
@@ -146,6 +194,12 @@ def direct_H(system, k):
     from wannierberri.system.system_soc import SystemSOC
     from wannierberri.system.system_kp import SystemKP
     if isinstance(system, SystemKP):
+        # from the definition: fold the reduced k into [-1/2,1/2), convert with the rows of the reciprocal cell if the
+        # model takes Cartesian k, call the user's function
+        kf = (np.asarray(k, dtype=float) + 0.5) % 1 - 0.5
+        if hasattr(system, "_verif_ham"):
+            karg = kf @ system._verif_desc["recip_lattice"] if system._verif_desc["k_vector_cartesian"] else kf
+            return np.array(system._verif_ham(karg))
         return np.array(system.Ham(k))
 
     def ft(s, key):
@@ -386,16 +440,17 @@ def corr_kp(ctx):
     rng = ctx.rng
     lines, expect, cases = [], [], []
     corners = list(itertools.product((0, 1), repeat=3))
-    for it in range(ctx.n(10, 80)):
+    for it in range(ctx.n(14, 100)):
         coef = [Fr(rng.randint(-16, 16), 8) for _ in range(7)]
         cf = [float(x) for x in coef]
 
         def Ham(k, cf=cf):
             return np.array([[cf[0] + cf[1] * k[0] + cf[2] * k[1] + cf[3] * k[2] + cf[4] * k[0] * k[0]
                               + cf[5] * k[1] * k[1] + cf[6] * k[2] * k[2]]], dtype=complex)
-        geom = rng.choice(["paral", "tetra"])
+        geom = rng.choice(["paral", "paral", "tetra"])
+        cart = rng.random() < 0.6
+        cellkind, s = build_kp(ctx.count, rng, Ham, cart, dyadic=True)
         with quiet():
-            s = SystemKP(Ham=Ham, kmax=1.0, k_vector_cartesian=False)
             # parallelepiped corners fall on the folding boundary 1/2 only when NKdiv*NKFFT is odd on that axis
             pairs = [rng.choice([(1, 2), (2, 1), (2, 3), (3, 2), (4, 1), (1, 4), (2, 2), (3, 4), (5, 2), (3, 3)]) for _ in range(3)]
             div = [p[0] for p in pairs]
@@ -412,15 +467,20 @@ def corr_kp(ctx):
         pts = np.array(grid.points_FFT)
         dK = np.array(Kp.Kp_fullBZ)
         allk = np.array([(p + dK) % 1 + v for p in pts for v in vs])
-        case = dict(coefficients=cf, NKdiv=div, NKFFT=fft, K=Kp.K, geometry=geom)
+        # the cell the model uses: the rows of the reciprocal lattice if the Hamiltonian takes Cartesian k, else identity
+        Bm = np.array(s.recip_lattice) if cart else np.eye(3)
+        case = dict(coefficients=cf, cell=cellkind, recip_lattice=np.array(s.recip_lattice), k_vector_cartesian=cart,
+                    NKdiv=div, NKFFT=fft, K=Kp.K, geometry=geom)
         if np.abs(((allk + 0.5) % 1)).min() < 1e-7 or np.abs(((allk + 0.5) % 1) - 1).min() < 1e-7:
             ctx.count("corr.kp.skipped_corner_on_box_boundary")
             continue
-        lines.append(f"kpcorner {rats(coef)} {ratss([[F(x) for x in p] for p in pts])} {rats(F(x) for x in dK)} "
-                     f"{ratss([[F(x) for x in v] for v in vs])}")
+        lines.append(f"kpcornerc {rats(coef)} {ratss([[F(x) for x in r] for r in Bm])} {ratss([[F(x) for x in p] for p in pts])} "
+                     f"{rats(F(x) for x in dK)} {ratss([[F(x) for x in v] for v in vs])}")
         expect.append(np.array(E).reshape(len(pts), -1))
         cases.append(case)
         ctx.count(f"corr.kp.geometry={geom}")
+        ctx.count(f"corr.kp.cell={cellkind}")
+        ctx.count("corr.kp.k_cartesian" if cart else "corr.kp.k_reduced")
     out = yield lines
     for l, o, e, c in zip(lines, out, expect, cases):
         ctx.case(signature=l, nontrivial=True)
@@ -438,7 +498,7 @@ def oracle(ctx, scale):
     rng = ctx.rng
     corners = list(itertools.product((0, 1), repeat=3))
     for it in range(ctx.n(150, 1500) * scale):
-        kind = rng.choice(["R", "R", "phonon", "soc-one", "soc-same", "soc-diff", "soc-diff", "kp"])
+        kind = rng.choice(["R", "R", "phonon", "soc-one", "soc-same", "soc-diff", "soc-diff", "kp", "kp"])
         with quiet():
             if kind in ("R", "phonon"):
                 s = make_system(rng, keys=("Ham",), scale=rng.choice([1.0, 10.0, 0.01]))
@@ -447,7 +507,7 @@ def oracle(ctx, scale):
             elif kind.startswith("soc"):
                 s = make_soc(rng, rng.randint(1, 3), kind[4:])
             else:
-                s = make_kp(rng)
+                s = make_kp(rng, ctx.count)
         geom = rng.choice(["paral", "paral", "tetra"])
         grid, Kp, desc = pick_kpoint(rng, s, geom)
         lib = rng.choice(["fftw", "numpy", "slow"])
@@ -465,6 +525,10 @@ def oracle(ctx, scale):
             ctx.count("oracle.soc.with_soc_term" if s.has_soc else "oracle.soc.without_soc_term")
         elif kind != "kp":
             case.update(iRvec=s.rvec.iRvec)
+        else:
+            case.update(kp=s._verif_desc)
+            ctx.count(f"oracle.kp.cell={s._verif_desc['cell']}")
+            ctx.count("oracle.kp.k_cartesian" if s._verif_desc["k_vector_cartesian"] else "oracle.kp.k_reduced")
         ctx.count(f"oracle.kind={kind}")
         ctx.count(f"oracle.geometry={geom}")
         ctx.count("oracle.window" if window else "oracle.no_window")
